@@ -11,7 +11,7 @@ ENGINES = [
 ]
 CHECKS = {}
 
-DEEP = "S0a0p0,S0a1p0"
+DEEP = "S0a1p0"
 
 CHECKS["C14"] = {
     "engine": "enhmc", "design_ref": "5/C14",
@@ -48,13 +48,13 @@ CHECKS["C14"] = {
         "quick": {"parts": 16, "args": ["--len", 5, "--xval", 4], "deadline": 400,
                   "bounds": "streams <= 5 bytes for all 18 mode combinations; merge validation <= 4; transport search depth 20 (hashed) / 5-6 (unhashed)"},
         "thorough": {"parts": 16, "args": ["--len", 6, "--deep", 7, "--deepmodes", DEEP, "--xval", 4], "deadline": 6000,
-                     "bounds": "streams <= 7 bytes for the handler pattern in start state S0 with and without arbitration, <= 6 for the "
-                               "other 16 mode combinations; merge validation <= 4; transport search depth 20 (hashed) / 6-7 (unhashed)"},
+                     "bounds": "streams <= 7 bytes for the handler pattern in start state S0 with a running arbitration (mode S0a1p0), <= 6 for "
+                               "all 18 mode combinations; merge validation <= 4; transport search depth 20 (hashed) / 6-7 (unhashed)"},
     }],
 }
 
 
-SAN_DEEP = "S0a0p0,S1a1p0,S2a0p0"
+SAN_DEEP = "S1a1p0"
 
 
 def _san(quick_len, thorough_len, deep_len):
